@@ -79,6 +79,11 @@ var pinnedCases = []pinnedCase{
 	{"C16", "tonumber-0x-with-base-16", `return tonumber("0x10",16), tonumber("ff",16), tonumber("0x",16)`, "16|255|nil", nil},
 	{"C02", "select-count-marker", `return select("#x",1,2)`, "2", nil},
 	{"C20", "not-found-message-format", `package.path="./?.lua" local ok,msg=pcall(require,"zzz") return ok,(msg:match("module.*$"):gsub("\n\t",";"))`, "false|module 'zzz' not found:;no field package.preload['zzz'];no file './zzz.lua'", nil},
+	// seventh batch
+	{"C15", "format-missing-argument", `return pcall(string.format, "%s"), pcall(string.format, "%s %s", "a"), pcall(string.format, "%q"), pcall(string.format, "%d")`, "false|false|false|false", nil},
+	{"C15", "format-invalid-directive", `return pcall(string.format, "%y", 1), pcall(string.format, "%", 1), pcall(string.format, "%ld", 1), pcall(string.format, "%123d", 1), pcall(string.format, "%.123f", 1), pcall(string.format, "%-+ #0-d", 1), (string.format("%5.2f|%-5d|%+d|%%", 1.5, 3, 4))`, "false|false|false|false|false|false| 1.50|3    |+4|%", nil},
+	{"C16", "tonumber-wide-integer-with-base", `return tonumber("0x10000000000000000", 16) == tonumber("0x10000000000000000"), tonumber("10000000000000000", 16) == 2^64, tonumber("ffffffffffffffffff", 16) == 2^72, tonumber("1" .. ("0"):rep(70), 2) == 2^70, tonumber("zz", 36)`, "true|true|true|true|1295", nil},
+	{"C16", "date-strips-one-bang", `return os.date("!!%H", 0), os.date("!%H", 0)`, "!00|00", nil},
 	// sixth batch
 	{"C04", "xpcall-calls-a-callable-object", `local c = setmetatable({}, {__call = function(self, ...) return "called", self ~= nil end}) local a, b, c2 = xpcall(c, function(m) return m end) local d, e = xpcall(nil, function(m) return "H" end) return a, b, c2, d, e`, "true|called|true|false|H", nil},
 	{"C19", "setvbuf-keeps-pending-bytes", `local f = io.open("$F", "w") f:setvbuf("full", 1024) f:write("abc") f:setvbuf("no") f:write("def") f:setvbuf("full", 16) f:write("ghi") f:setvbuf("full", 64) f:write("jkl") f:close() local g = io.open("$F") local s = g:read("*a") g:close() return s`, "abcdefghijkl", nil},
